@@ -361,4 +361,253 @@ theorem decided_eventually (hfR : WeakFair e RunAct) (hfW : StrongFair e (RecvAc
 
 end Liveness
 
+/-! ### after the decision: the deferred unsubscribe gets the pool lock -/
+
+/-- waiter `k` finishing its subscribe (it holds the write lock) -/
+def SubAct (k : Nat) : Action → Bool
+  | .wSub j => j == k
+  | _ => false
+
+/-- waiter `i` unsubscribing -/
+def UnsubAct (i : Nat) : Action → Bool
+  | .wUnsub j => j == i
+  | _ => false
+
+/-- `Run` holds the pool lock -/
+def holds (r : RunPc) : Bool := r.lockW || r.lockR
+
+/-- remaining work of `Run`'s critical section (`n` members, `wl` registered waiters) -/
+def csMeasure (n wl : Nat) : RunPc → Nat
+  | .ubRead i _ => (n + 1 - i) + (n + 2) + 2 * wl + 2
+  | .ubSel i _ _ => (n + 1 - i) + 2 * wl + 2
+  | .nCheck _ _ => 2 * wl + 2
+  | r => mu r
+
+theorem holds_frame {v s a s'} (hA : InvA s) (hs : step v s a = some s') (ha : RunAct a = false)
+    (hr : holds s.run = true) : s'.run = s.run ∧ s'.waitList = s.waitList ∧
+      s'.heads.length = s.heads.length := by
+  obtain ⟨l1, l2, l3, l4, vWl, vLoop, vPut, fresh, cap1⟩ := hA
+  cases a <;> (try (simp [RunAct] at ha; done)) <;> step_cases hs <;>
+    grind [State.setW, State.setS, holds, RunPc.lockW, RunPc.lockR]
+
+theorem holds_enabled {v s} (hn : v.nbNotify = true) (hA : InvA s) (cf : ∀ c, connFree s c = true)
+    (hr : holds s.run = true) : ∃ a, RunAct a = true ∧ (step v s a).isSome = true := by
+  cases hrun : s.run with
+  | ubRead i seqs =>
+    refine ⟨.ubRead, rfl, ?_⟩
+    simp only [step, hrun, cf i, if_true]
+    split <;> simp
+  | ubSel i seqs acc =>
+    by_cases hi : i < s.heads.length
+    · refine ⟨.ubSel, rfl, ?_⟩
+      simp only [step, hrun, hi, cf i, if_true]
+      split <;> simp
+    · refine ⟨.ubSet, rfl, ?_⟩
+      simp only [step, hrun, Nat.le_of_not_lt hi, if_true]
+      split
+      · simp
+      · split <;> simp
+  | nCheck c h =>
+    refine ⟨.nCheck, rfl, ?_⟩
+    simp only [step, hrun]
+    split <;> simp
+  | nLoop sw h todo => exact run_enabled hn hA (by rw [hrun]; rfl)
+  | nPut sw h h' w todo => exact run_enabled hn hA (by rw [hrun]; rfl)
+  | _ => simp [hrun, holds, RunPc.lockW, RunPc.lockR] at hr
+
+/-- every step of `Run` inside a critical section shortens it or ends it with the lock released -/
+theorem holds_decreases {v s a s'} (hA : InvA s) (hs : step v s a = some s') (ha : RunAct a = true)
+    (hr : holds s.run = true) :
+    s'.rw = .free ∨ (holds s'.run = true ∧
+      csMeasure s'.heads.length s'.waitList.length s'.run < csMeasure s.heads.length s.waitList.length s.run) := by
+  obtain ⟨l1, l2, l3, l4, vWl, vLoop, vPut, fresh, cap1⟩ := hA
+  cases a <;> (try (simp [RunAct] at ha; done)) <;> step_cases hs <;>
+    grind [State.setW, State.setS, holds, RunPc.lockW, RunPc.lockR, csMeasure, mu, List.length_erase_of_mem,
+      List.length_map]
+
+section Returns
+variable {v : Variant} (hn : v.nbNotify = true) (hp : v.pubUnlocked = true) (e : Exec v)
+include hn hp
+
+/-- the first action of `Run` after `n` while it holds the lock; until then its critical section does not change -/
+theorem holds_acts (hf : WeakFair e RunAct) (n : Nat) (hr : holds (e.st n).run = true) :
+    ∃ m, n ≤ m ∧ RunAct (e.act m) = true ∧ (e.st m).run = (e.st n).run ∧
+      (e.st m).waitList = (e.st n).waitList ∧ (e.st m).heads.length = (e.st n).heads.length := by
+  have frame : ∀ d, (∀ k, n ≤ k → k < n + d → RunAct (e.act k) = false) →
+      (e.st (n + d)).run = (e.st n).run ∧ (e.st (n + d)).waitList = (e.st n).waitList ∧
+      (e.st (n + d)).heads.length = (e.st n).heads.length := by
+    intro d
+    induction d with
+    | zero => intro _; exact ⟨rfl, rfl, rfl⟩
+    | succ d ih =>
+      intro hno
+      obtain ⟨h1, h2, h3⟩ := ih (fun k hk hlt => hno k hk (by omega))
+      obtain ⟨g1, g2, g3⟩ := holds_frame (reachable_invA (e.reachable (n + d))) (e.ok (n + d))
+        (hno (n + d) (Nat.le_add_right _ _) (by omega)) (by rw [h1]; exact hr)
+      exact ⟨by rw [← Nat.add_assoc, g1, h1], by rw [← Nat.add_assoc, g2, h2], by rw [← Nat.add_assoc, g3, h3]⟩
+  have hex : ∃ m, n ≤ m ∧ RunAct (e.act m) = true := by
+    apply Classical.byContradiction
+    intro hno
+    have hnever : ∀ m, n ≤ m → RunAct (e.act m) = false := by
+      intro m hm
+      cases h : RunAct (e.act m) with
+      | false => rfl
+      | true => exact absurd ⟨m, hm, h⟩ hno
+    obtain ⟨m, hm, ht⟩ := hf n (fun m hm => by
+      obtain ⟨d, rfl⟩ := Nat.exists_eq_add_of_le hm
+      have hr' := e.reachable (n + d)
+      exact holds_enabled hn (reachable_invA hr') (reachable_connFree hp hr')
+        (by rw [(frame d (fun k hk _ => hnever k hk)).1]; exact hr))
+    exact hno ⟨m, hm, ht⟩
+  obtain ⟨m0, hm0, hleast⟩ := exists_least hex
+  obtain ⟨d, hd⟩ := Nat.exists_eq_add_of_le hm0.1
+  have hfr := frame d (fun k hk hlt => by
+    cases h : RunAct (e.act k) with
+    | false => rfl
+    | true => exact absurd ⟨hk, h⟩ (hleast k (by omega)))
+  rw [← hd] at hfr
+  exact ⟨m0, hm0.1, hm0.2, hfr.1, hfr.2.1, hfr.2.2⟩
+
+/-- `Run` weakly fair: a critical section of `Run` ends, the pool lock becomes free -/
+theorem run_releases (hf : WeakFair e RunAct) :
+    ∀ k n, holds (e.st n).run = true →
+      csMeasure (e.st n).heads.length (e.st n).waitList.length (e.st n).run ≤ k →
+      ∃ m, n ≤ m ∧ (e.st m).rw = .free := by
+  intro k
+  induction k with
+  | zero =>
+    intro n hr hmu
+    obtain ⟨m, hnm, hact, h1, h2, h3⟩ := holds_acts hn hp e hf n hr
+    rcases holds_decreases (reachable_invA (e.reachable m)) (e.ok m) hact (by rw [h1]; exact hr) with hfree | ⟨_, hlt⟩
+    · exact ⟨m + 1, by omega, hfree⟩
+    · rw [h1, h2, h3] at hlt; omega
+  | succ k ih =>
+    intro n hr hmu
+    obtain ⟨m, hnm, hact, h1, h2, h3⟩ := holds_acts hn hp e hf n hr
+    rcases holds_decreases (reachable_invA (e.reachable m)) (e.ok m) hact (by rw [h1]; exact hr) with hfree | ⟨hh, hlt⟩
+    · exact ⟨m + 1, by omega, hfree⟩
+    · rw [h1, h2, h3] at hlt
+      obtain ⟨m', hm', hf'⟩ := ih (m + 1) hh (by omega)
+      exact ⟨m', by omega, hf'⟩
+
+/-- whoever holds the pool lock lets go of it: `Run` (weakly fair) finishes its critical section, a subscribing
+waiter (weakly fair) finishes its subscribe -/
+theorem lock_free_again (hfR : WeakFair e RunAct) (hfS : ∀ k, WeakFair e (SubAct k)) (n : Nat) :
+    ∃ m, n ≤ m ∧ (e.st m).rw = .free := by
+  have hA := reachable_invA (e.reachable n)
+  cases hrw : (e.st n).rw with
+  | free => exact ⟨n, Nat.le_refl _, hrw⟩
+  | rd =>
+    exact run_releases hn hp e hfR _ n (by simp [holds, hA.l4.mp hrw]) (Nat.le_refl _)
+  | wrRun =>
+    exact run_releases hn hp e hfR _ n (by simp [holds, hA.l3.mp hrw]) (Nat.le_refl _)
+  | wrW j =>
+    -- waiter j is at the end of subscribe; nobody else can touch the lock until it finishes
+    have hex : ∃ m, n ≤ m ∧ SubAct j (e.act m) = true := by
+      apply Classical.byContradiction
+      intro hno
+      have hnever : ∀ m, n ≤ m → SubAct j (e.act m) = false := by
+        intro m hm
+        cases h : SubAct j (e.act m) with
+        | false => rfl
+        | true => exact absurd ⟨m, hm, h⟩ hno
+      have stay : ∀ d, (e.st (n + d)).rw = .wrW j := by
+        intro d
+        induction d with
+        | zero => exact hrw
+        | succ d ih =>
+          have hs := e.ok (n + d)
+          have hne := hnever (n + d) (Nat.le_add_right _ _)
+          have hA' := reachable_invA (e.reachable (n + d))
+          obtain ⟨l1, l2, l3, l4, _⟩ := hA'
+          rw [← Nat.add_assoc]
+          generalize e.act (n + d) = a at hs hne
+          generalize e.st (n + d + 1) = s' at hs
+          generalize e.st (n + d) = s at *
+          cases a <;> step_cases hs <;>
+            grind [State.setW, State.setS, SubAct, RunPc.lockW, RunPc.lockR]
+      obtain ⟨m, hm, ht⟩ := hfS j n (fun m hm => by
+        obtain ⟨d, rfl⟩ := Nat.exists_eq_add_of_le hm
+        have hr' := e.reachable (n + d)
+        have hA' := reachable_invA hr'
+        obtain ⟨x, hx⟩ := hA'.l2 j (stay d)
+        obtain ⟨a, _, hen⟩ := wSub_enabled (v := v) (reachable_connFree hp hr') hx ((hA'.l1 j x hx).mpr (stay d))
+        refine ⟨.wSub j, by simp [SubAct], ?_⟩
+        -- wSub_enabled produced exactly this action
+        have : (step v (e.st (n + d)) (.wSub j)).isSome = true := by
+          simp only [step, hx, (hA'.l1 j x hx).mpr (stay d), if_true]
+          cases hb : (e.st (n + d)).best with
+          | none => simp
+          | some c =>
+            simp only [reachable_connFree hp hr' c, if_true]
+            split <;> simp
+        exact this)
+      exact hno ⟨m, hm, ht⟩
+    obtain ⟨m, hm, hact⟩ := hex
+    have heq : e.act m = .wSub j := by
+      revert hact
+      cases e.act m <;> simp [SubAct]
+    have hs := e.ok m
+    rw [heq] at hs
+    refine ⟨m + 1, by omega, ?_⟩
+    generalize e.st (m + 1) = s' at hs
+    step_cases hs <;> rfl
+
+end Returns
+
+/-- a waiter whose result is decided keeps it -/
+def Leaving (s : State) (i : Nat) (r : WRes) : Prop :=
+  ∀ w, s.waiters[i]? = some w → w.pc = .leave r ∨ w.pc = .done r
+
+theorem leaving_step {v s a s'} (i : Nat) (r : WRes) (h : Leaving s i r) (hs : step v s a = some s') :
+    Leaving s' i r := by
+  unfold Leaving at *
+  cases a <;> step_cases hs <;> grind [State.setW, State.setS]
+
+theorem unsub_done {v s s'} (i : Nat) (r : WRes) (h : Leaving s i r) (hs : step v s (.wUnsub i) = some s') :
+    ∀ w, s'.waiters[i]? = some w → w.pc = .done r := by
+  unfold Leaving at h
+  step_cases hs <;> grind [State.setW, State.setS]
+
+section Returns2
+variable {v : Variant} (hn : v.nbNotify = true) (hp : v.pubUnlocked = true) (e : Exec v)
+include hn hp
+
+/-- **the decided waiter returns**: `Run` and every subscribing waiter weakly fair (they release the pool lock), the
+waiter's own lock acquisition strongly fair (the lock is free again and again; Go's mutex does not starve a waiting
+locker): the deferred unsubscribe completes. -/
+theorem returns_eventually (hfR : WeakFair e RunAct) (hfS : ∀ k, WeakFair e (SubAct k)) (i n0 : Nat) (r : WRes)
+    (hfU : StrongFair e (UnsubAct i)) (hw : ∃ w, (e.st n0).waiters[i]? = some w ∧ w.pc = .leave r) :
+    ∃ m, n0 ≤ m ∧ ∃ w, (e.st m).waiters[i]? = some w ∧ w.pc = .done r := by
+  obtain ⟨w0, hw0, hpc0⟩ := hw
+  have hl : ∀ m, n0 ≤ m → Leaving (e.st m) i r := by
+    intro m hm
+    obtain ⟨d, rfl⟩ := Nat.exists_eq_add_of_le hm
+    induction d with
+    | zero => intro w hw; rw [Nat.add_zero, hw0] at hw; cases hw; exact Or.inl hpc0
+    | succ d ih => exact leaving_step i r (ih (Nat.le_add_right _ _)) (e.ok (n0 + d))
+  apply Classical.byContradiction
+  intro hnot
+  have hleave : ∀ m, n0 ≤ m → ∃ w, (e.st m).waiters[i]? = some w ∧ w.pc = .leave r := by
+    intro m hm
+    obtain ⟨w, hw⟩ := exec_waiter_some e i n0 ⟨w0, hw0⟩ m hm
+    rcases hl m hm w hw with h | h
+    · exact ⟨w, hw, h⟩
+    · exact absurd ⟨m, hm, w, hw, h⟩ hnot
+  have hio : ∀ k, n0 ≤ k → ∃ m, k ≤ m ∧ ∃ a, UnsubAct i a = true ∧ (step v (e.st m) a).isSome = true := by
+    intro k hk
+    obtain ⟨m, hm, hfree⟩ := lock_free_again hn hp e hfR hfS k
+    obtain ⟨w, hw, hpc⟩ := hleave m (by omega)
+    exact ⟨m, hm, .wUnsub i, by simp [UnsubAct], by simp [step, hw, hpc, hfree]⟩
+  obtain ⟨m, hm, hact⟩ := hfU n0 hio
+  have heq : e.act m = .wUnsub i := by
+    revert hact
+    cases e.act m <;> simp [UnsubAct]
+  have hs := e.ok m
+  rw [heq] at hs
+  obtain ⟨w, hw⟩ := exec_waiter_some e i n0 ⟨w0, hw0⟩ (m + 1) (by omega)
+  exact hnot ⟨m + 1, by omega, w, hw, unsub_done i r (hl m hm) hs w hw⟩
+
+end Returns2
+
 end Tongo.PoolSM
